@@ -53,7 +53,8 @@ class Job:
     def __init__(self, id, props, harness, entry, enforce=None, replace=(), loops=True,
                  defs=(), cflags=(), cbmc=(), timeout=900, must_have=(), tier="quick",
                  unwind=None, replay=None, functions=(), note="", solver=None, bounded=None,
-                 expect_fail=(), nondet_static=True, mem_gb=None, quick_only_for=(), strip_bodies=()):
+                 expect_fail=(), nondet_static=True, mem_gb=None, quick_only_for=(), strip_bodies=(), drop_checks=()):
+        self.drop_checks = list(drop_checks)  # CBMC check flags not applied to this job (reason in the job's note)
         self.strip_bodies = list(strip_bodies)  # functions whose bodies are removed and replaced by "return nondet" (plain jobs only)
         self.quick_only_for = set(quick_only_for)  # if non-empty: part of the quick tier only for these properties
         self.mem_gb = mem_gb  # None: default 14 GB; larger values run one at a time
@@ -147,7 +148,7 @@ def run_job(job, tree, trace=False):
             return out
         out["dropped_replacements"] = [r for r in job.replace if r not in replace]
         cur = b
-    cb = ["cbmc"] + CBMC_CHECKS + (job.solver if job.solver is not None else DEFAULT_SOLVER) + job.cbmc
+    cb = ["cbmc"] + [c for c in CBMC_CHECKS if c not in getattr(job, "drop_checks", [])] + (job.solver if job.solver is not None else DEFAULT_SOLVER) + job.cbmc
     if job.unwind:
         cb += ["--unwind", str(job.unwind), "--unwinding-assertions"]
     if trace:
